@@ -214,7 +214,11 @@ pub async fn run_tls_case(c: &TlsCase) -> TlsOutcome {
             }
         });
     }
+    // the protocol service is not ready at once in two cases of three (decided by the case itself, so a replay agrees)
+    let pending_polls = (hash_of(&c.to_json().to_string()) % 3) as usize;
+    PROTOCOL_PENDING_POLLS.with(|p| p.set(pending_polls));
     let client = build_client(routes.clone(), None, Some(client_tls(c.client_alpn)), None);
+    PROTOCOL_PENDING_POLLS.with(|p| p.set(0));
     let uri = if c.from_parts {
         http::Uri::builder().scheme(c.scheme).authority(c.authority()).path_and_query(format!("/r/4242/{MARKER}?m={MARKER}")).build().map_err(|e| e.to_string())
     } else {
